@@ -182,6 +182,7 @@ func (c *Corpus) deepSeeds(t gopacket.LayerType) int {
 	for _, b := range c.Seeds[t] {
 		n := 0
 		vlib.Guard(func() {
+			note(t, b)
 			p := gopacket.NewPacket(b, t, gopacket.DecodeOptions{NoCopy: true})
 			for _, l := range p.Layers() {
 				if _, isErr := l.(gopacket.ErrorLayer); !isErr && l.LayerType() != gopacket.LayerTypeDecodeFailure && l.LayerType() != gopacket.LayerTypePayload {
@@ -196,6 +197,20 @@ func (c *Corpus) deepSeeds(t gopacket.LayerType) int {
 	return deep
 }
 
+// LastInput, when set, receives every input just before the corpus builder hands it to the library: the builder runs
+// library code outside any case, and a process-fatal error there (stack overflow, ...) must still name its input.
+var LastInput *os.File
+
+func note(t gopacket.LayerType, b []byte) {
+	if LastInput == nil {
+		return
+	}
+	var h [8]byte
+	binary.LittleEndian.PutUint32(h[:4], uint32(t))
+	binary.LittleEndian.PutUint32(h[4:], uint32(len(b)))
+	LastInput.WriteAt(append(h[:], b...), 0)
+}
+
 func addr(b []byte) uintptr { return uintptr(unsafe.Pointer(unsafe.SliceData(b))) }
 
 // addDecoded decodes data as first and records, for every layer of the result, the suffix of data that starts at that
@@ -203,6 +218,7 @@ func addr(b []byte) uintptr { return uintptr(unsafe.Pointer(unsafe.SliceData(b))
 func (c *Corpus) addDecoded(data []byte, first gopacket.LayerType) int {
 	var p gopacket.Packet
 	if pi := vlib.Guard(func() {
+		note(first, data)
 		p = gopacket.NewPacket(data, first, gopacket.DecodeOptions{NoCopy: true, DecodeStreamsAsDatagrams: true})
 		p.Layers()
 	}); pi != nil || p == nil {
@@ -283,6 +299,7 @@ func Build(repo string) *Corpus {
 			}
 			score := -1
 			vlib.Guard(func() {
+				note(t, b)
 				p := gopacket.NewPacket(b, t, gopacket.DecodeOptions{NoCopy: true})
 				ls := p.Layers()
 				if p.ErrorLayer() == nil && len(ls) > 0 && ls[0].LayerType() == t {
@@ -309,6 +326,7 @@ func Build(repo string) *Corpus {
 		for _, b := range list {
 			ok := false
 			vlib.Guard(func() {
+				note(t, b)
 				ls := gopacket.NewPacket(b, t, gopacket.DecodeOptions{NoCopy: true}).Layers()
 				ok = len(ls) > 0 && ls[0].LayerType() != gopacket.LayerTypeDecodeFailure
 			})
@@ -353,6 +371,7 @@ func Build(repo string) *Corpus {
 			}
 			n := 0
 			vlib.Guard(func() {
+				note(t, b)
 				p := gopacket.NewPacket(b, t, gopacket.DecodeOptions{NoCopy: true})
 				ls := p.Layers()
 				if len(ls) == 0 || ls[0].LayerType() != t {
